@@ -237,9 +237,26 @@ def harness_env():
     return e
 
 
-def harness_batch(cmd, cases, timeout=3600):
-    """cases: list of JSON-able objects; returns list of parsed responses (same length)."""
+def harness_batch(cmd, cases, timeout=3600, jobs=1):
+    """cases: list of JSON-able objects; returns list of parsed responses (same length).
+    jobs > 1: the cases are dealt round-robin to that many harness processes (results come back in input order)."""
     lines = [cmd + " " + json.dumps(c, separators=(",", ":")) for c in cases]
+    if jobs > 1 and len(lines) > 1:
+        from concurrent.futures import ThreadPoolExecutor
+        jobs = min(jobs, len(lines))
+        parts = [lines[k::jobs] for k in range(jobs)]
+
+        def one(part):
+            rc, outs, err = batch([os.path.join(BUILD, "verifharness")], part, env=harness_env(), timeout=timeout)
+            if len(outs) != len(part):
+                raise RuntimeError("verifharness %s: %d responses for %d requests (rc=%s)\n%s" % (cmd, len(outs), len(part), rc, err[-2000:]))
+            return outs
+        with ThreadPoolExecutor(jobs) as ex:
+            res = list(ex.map(one, parts))
+        out = [None] * len(lines)
+        for k, part in enumerate(res):
+            out[k::jobs] = part
+        return [json.loads(o) for o in out]
     rc, outs, err = batch([os.path.join(BUILD, "verifharness")], lines, env=harness_env(), timeout=timeout)
     if len(outs) != len(lines):
         raise RuntimeError("verifharness %s: %d responses for %d requests (rc=%s)\n%s" % (cmd, len(outs), len(lines), rc, err[-2000:]))
